@@ -96,7 +96,12 @@ _URI_CHARS = re.compile(r"^[A-Za-z0-9\-._~:/?#\[\]@!$&'()*+,;=%]*$")
 
 
 class UriError(Exception):
-    pass
+    """code = short stable reason, field = label / issuer / None"""
+
+    def __init__(self, code, field=None):
+        Exception.__init__(self, code)
+        self.code = code.replace(" ", "_")
+        self.field = field
 
 
 def b32_loose(text):
@@ -116,23 +121,23 @@ def parse_keyuri(uri):
         raise UriError("fragment")
     path = parts.path
     if not path.startswith("/") or len(path) < 2:
-        raise UriError("no label")
+        raise UriError("no label", "label")
     raw_label = path[1:]
     if "/" in raw_label:
-        raise UriError("unescaped '/' in label")
+        raise UriError("unescaped slash in label", "label")
     # the issuer prefix is separated by a literal or an encoded colon
     label = urllib.parse.unquote(raw_label, errors="strict")
     prefix = None
     if ":" in label:
         prefix, label = label.split(":", 1)
         if ":" in label:
-            raise UriError("two colons")
+            raise UriError("two colons", "label")
         label = label.lstrip(" ")
     params = {}
     if parts.query:
         for item in parts.query.split("&"):
             if "=" not in item:
-                raise UriError("query item without '='")
+                raise UriError("query item without value")
             k, v = item.split("=", 1)
             k = urllib.parse.unquote(k, errors="strict")
             v = urllib.parse.unquote(v, errors="strict")  # '+' stays '+': spec wants %20 for blanks
@@ -143,7 +148,7 @@ def parse_keyuri(uri):
         raise UriError("no secret")
     issuer = params.get("issuer")
     if prefix is not None and issuer is not None and prefix != issuer:
-        raise UriError("issuer prefix != issuer parameter")
+        raise UriError("issuer prefix differs from parameter", "issuer")
     if issuer is None:
         issuer = prefix
     alg = params.get("algorithm", "SHA1")
